@@ -28,3 +28,18 @@ pub fn vf_sort_unstable_u32(v: &mut Vec<u32>)
         forall|x: u32| final(v)@.contains(x) <==> old(v)@.contains(x),
         old(v)@.no_duplicates() ==> final(v)@.no_duplicates(),
 { v.sort_unstable() }
+// `S.retain(|&i| F(i, M))` (keep_if = true) / `S.retain(|&i| !F(i, M))` (keep_if = false): every element is passed to F
+// exactly once, the result b obeys F's postcondition, and the element stays iff b == keep_if; nothing is added.
+#[verifier::external_body]
+pub fn vf_hashset_retain_fn<M, F: Fn(usize, &M) -> bool>(s: &mut HashSet<usize>, f: &F, m: &M, keep_if: bool)
+    requires forall|i: usize| old(s)@.contains(i) ==> call_requires(*f, (i, m)),
+    ensures
+        forall|i: usize| final(s)@.contains(i) ==> old(s)@.contains(i),
+        forall|i: usize| old(s)@.contains(i) ==> exists|b: bool| call_ensures(*f, (i, m), b) && (final(s)@.contains(i) <==> b == keep_if),
+{ s.retain(|&i| f(i, m) == keep_if) }
+// `S.into_iter().collect::<Vec<usize>>()` / `.collect_vec()` on an owned HashSet<usize>: every element exactly once, in
+// an UNSPECIFIED order (hash iteration order)
+#[verifier::external_body]
+pub fn vf_hashset_into_vec(s: HashSet<usize>) -> (r: Vec<usize>)
+    ensures r@.no_duplicates(), forall|i: usize| r@.contains(i) <==> s@.contains(i)
+{ s.into_iter().collect() }
